@@ -1,0 +1,23 @@
+//go:build verif
+
+package smtp
+
+import (
+	"net"
+
+	"github.com/rs/zerolog"
+)
+
+// VerifServeConn runs one SMTP session on conn through the regular session code and returns
+// when the session has ended.  Verification builds only.
+func (s *Server) VerifServeConn(id int, conn net.Conn) {
+	s.startSession(id, conn, zerolog.Nop())
+}
+
+// VerifAddr returns the bound listener address, or nil before Start has bound it.
+func (s *Server) VerifAddr() net.Addr {
+	if s.listener == nil {
+		return nil
+	}
+	return s.listener.Addr()
+}
